@@ -9,6 +9,7 @@
    * where the implementation has freedom (simple8b selector choice, RLE run splitting, time scale, which mode to
      pick) the mode carries the choice; the harness reads the choice from the real bytes. *)
 From Coq Require Import ZArith List Bool.
+From OG Require Export C07.Gen_Consts.
 Import ListNotations.
 Open Scope Z_scope.
 
@@ -95,8 +96,7 @@ Definition get_uvarint (l : list Z) : option (Z * list Z) := get_uvarint_f l 0 1
 
 (* ---------- simple8b (lib/util/lifted/encoding/simple8b) ---------- *)
 (* selector table: (number of values, bits per value) *)
-Definition s8_table : list (Z * Z) :=
-  [(240,0); (120,0); (60,1); (30,2); (20,3); (15,4); (12,5); (10,6); (8,7); (7,8); (6,10); (5,12); (4,15); (3,20); (2,30); (1,60)].
+Definition s8_table : list (Z * Z) := g_s8_table.     (* regenerated from simple8b's selector table on every run *)
 Definition s8_n (sel : Z) : nat := Z.to_nat (fst (nth (Z.to_nat sel) s8_table (0, 0))).
 Definition s8_bits (sel : Z) : Z := snd (nth (Z.to_nat sel) s8_table (0, 0)).
 
@@ -162,7 +162,7 @@ Fixpoint be8_all (l : list Z) : option (list Z) :=
 
 (* ================= integer block (lib/encoding/int.go) ================= *)
 Inductive imode := IConst | IS8 (sels : list Z) | IZstd | IRaw.
-Definition imode_tag (m : imode) : Z := match m with IConst => 1 | IS8 _ => 2 | IZstd => 3 | IRaw => 4 end.
+Definition imode_tag (m : imode) : Z := match m with IConst => g_int_const | IS8 _ => g_int_s8 | IZstd => g_int_zstd | IRaw => g_int_raw end.
 
 Section IntBlock.
   Variable zc : list Z -> list Z.            (* zstd EncodeAll *)
@@ -186,12 +186,12 @@ Section IntBlock.
     | [] => []
     | v0 :: rest =>
         match m with
-        | IRaw => [64] ++ be 4 (8 * len vs) ++ flat_map (fun v => be 8 (zz v)) vs
-        | IZstd => let c := zc (le_bytes vs) in [48] ++ be 4 (8 * len vs) ++ be 4 (len c) ++ c
-        | IConst => [16] ++ be 8 (zz v0) ++ put_uvarint (zz (hd 0 (deltas v0 rest))) ++ put_uvarint (len rest)
+        | IRaw => [16 * g_int_raw] ++ be 4 (8 * len vs) ++ flat_map (fun v => be 8 (zz v)) vs
+        | IZstd => let c := zc (le_bytes vs) in [16 * g_int_zstd] ++ be 4 (8 * len vs) ++ be 4 (len c) ++ c
+        | IConst => [16 * g_int_const] ++ be 8 (zz v0) ++ put_uvarint (zz (hd 0 (deltas v0 rest))) ++ put_uvarint (len rest)
         | IS8 sels =>
             let ws := s8_encode sels (map zz (deltas v0 rest)) in
-            [32] ++ be 4 (len ws + 1) ++ be 4 (len vs) ++ be 8 (zz v0) ++ flat_map (be 8) ws
+            [16 * g_int_s8] ++ be 4 (len ws + 1) ++ be 4 (len vs) ++ be 8 (zz v0) ++ flat_map (be 8) ws
         end
     end.
 
@@ -201,13 +201,13 @@ Section IntBlock.
     | t :: body =>
         if (length bs <? 5)%nat then None else
         let tag := t / 16 in
-        if tag =? 4 then
+        if tag =? g_int_raw then
           match get_be 4 body with
           | Some (n, r) => if len r <? n then None else
                            match be8_all r with Some ws => Some (map unzz ws) | None => None end
           | None => None
           end
-        else if tag =? 1 then
+        else if tag =? g_int_const then
           match get_be 8 body with
           | Some (first, r) =>
               match get_uvarint r with
@@ -220,7 +220,7 @@ Section IntBlock.
               end
           | None => None
           end
-        else if tag =? 2 then
+        else if tag =? g_int_s8 then
           if (length body <? 16)%nat then None else
           match get_be 4 body with
           | Some (encCount, r) =>
@@ -237,7 +237,7 @@ Section IntBlock.
               end
           | None => None
           end
-        else if tag =? 3 then
+        else if tag =? g_int_zstd then
           match get_be 4 body with
           | Some (_, r) =>
               match get_be 4 r with
@@ -257,7 +257,7 @@ End IntBlock.
 
 (* ================= timestamp block (lib/encoding/timestamp.go) ================= *)
 Inductive tmode := TConst | TS8 (scale : Z) (sels : list Z) | TSnappy | TRaw.
-Definition tmode_tag (m : tmode) : Z := match m with TConst => 1 | TS8 _ _ => 2 | TSnappy => 3 | TRaw => 4 end.
+Definition tmode_tag (m : tmode) : Z := match m with TConst => g_time_const | TS8 _ _ => g_time_s8 | TSnappy => g_time_snappy | TRaw => g_time_raw end.
 
 Section TimeBlock.
   Variable sc : list Z -> list Z.            (* klauspost snappy.Encode *)
@@ -283,17 +283,17 @@ Section TimeBlock.
 
   Definition time_enc_with (m : tmode) (vs : list Z) : list Z :=
     match m with
-    | TRaw => [64] ++ be 4 (8 * len vs) ++ flat_map (fun v => be 8 (zz v)) vs
-    | TSnappy => let c := sc (le_bytes vs) in [48] ++ be 4 (8 * len vs) ++ be 4 (len c) ++ c
+    | TRaw => [16 * g_time_raw] ++ be 4 (8 * len vs) ++ flat_map (fun v => be 8 (zz v)) vs
+    | TSnappy => let c := sc (le_bytes vs) in [16 * g_time_snappy] ++ be 4 (8 * len vs) ++ be 4 (len c) ++ c
     | TConst => match vs with
-                | v0 :: rest => [16] ++ be 8 v0 ++ put_uvarint (hd 0 (deltas v0 rest)) ++ put_uvarint (len rest)
+                | v0 :: rest => [16 * g_time_const] ++ be 8 v0 ++ put_uvarint (hd 0 (deltas v0 rest)) ++ put_uvarint (len rest)
                 | [] => []
                 end
     | TS8 scale sels =>
         match vs with
         | v0 :: rest =>
             let ws := s8_encode sels (map (fun d => d / scale) (deltas v0 rest)) in
-            [32] ++ be 8 scale ++ be 4 (len ws + 1) ++ be 4 (len vs) ++ be 8 v0 ++ flat_map (be 8) ws
+            [16 * g_time_s8] ++ be 8 scale ++ be 4 (len ws + 1) ++ be 4 (len vs) ++ be 8 v0 ++ flat_map (be 8) ws
         | [] => []
         end
     end.
@@ -304,13 +304,13 @@ Section TimeBlock.
     | t :: body =>
         if (length bs <? 5)%nat then None else
         let tag := t / 16 in
-        if tag =? 4 then
+        if tag =? g_time_raw then
           match get_be 4 body with
           | Some (n, r) => if len r <? n then None else
                            match be8_all r with Some ws => Some (map unzz ws) | None => None end
           | None => None
           end
-        else if tag =? 1 then
+        else if tag =? g_time_const then
           match get_be 8 body with
           | Some (v0, r) =>
               match get_uvarint r with
@@ -323,7 +323,7 @@ Section TimeBlock.
               end
           | None => None
           end
-        else if tag =? 2 then
+        else if tag =? g_time_s8 then
           if (length body <? 24)%nat then None else
           match get_be 8 body with
           | Some (scale, r0) =>
@@ -344,7 +344,7 @@ Section TimeBlock.
               end
           | None => None
           end
-        else if tag =? 3 then
+        else if tag =? g_time_snappy then
           match get_be 4 body with
           | Some (srcLen, r) =>
               match get_be 4 r with
@@ -378,7 +378,7 @@ Definition bool_applicable (bs : list bool) : bool := len bs <? M32.
 Definition bool_enc (bs : list bool) : list Z :=
   match bs with
   | [] => []
-  | _ => [16] ++ be 4 (len bs) ++ pack_bits (length bs) bs
+  | _ => [16 * g_bool_bitpack] ++ be 4 (len bs) ++ pack_bits (length bs) bs
   end.
 Definition bool_dec (bs : list Z) : option (list bool) :=
   match bs with
@@ -386,7 +386,7 @@ Definition bool_dec (bs : list Z) : option (list bool) :=
   | t :: body =>
       match get_be 4 body with
       | Some (n, r) =>
-          if t / 16 =? 1 then
+          if t / 16 =? g_bool_bitpack then
             let bits := flat_map bits_of_byte r in
             if len bits <? n then None else Some (firstn (Z.to_nat n) bits)
           else None
@@ -397,7 +397,7 @@ Definition bool_dec (bs : list Z) : option (list bool) :=
 (* ================= float container (lib/compress/float.go, compress.go) ================= *)
 Inductive fmode := FNone | FSame | FRLE (runs : list Z) | FSnappy | FGorilla | FMLF.
 Definition fmode_tag (m : fmode) : Z :=
-  match m with FNone => 0 | FSnappy => 2 | FGorilla => 3 | FSame => 4 | FRLE _ => 5 | FMLF => 6 end.
+  match m with FNone => g_f_none | FSnappy => g_f_snappy | FGorilla => g_f_gorilla | FSame => g_f_same | FRLE _ => g_f_rle | FMLF => g_f_mlf end.
 
 (* float64 bit-pattern predicates *)
 Definition f_is_nan (v : Z) : bool := ((v / 4503599627370496) mod 2048 =? 2047) && negb (v mod 4503599627370496 =? 0).
@@ -444,7 +444,7 @@ Fixpoint rle_greedy_runs (limit : Z) (prev : Z) (n : Z) (vs : list Z) : list Z :
               else n :: rle_greedy_runs limit v 1 r
   end.
 Definition rle_runs_of (vs : list Z) : list Z :=
-  match vs with [] => [] | v :: r => rle_greedy_runs 16384 v 1 r end.
+  match vs with [] => [] | v :: r => rle_greedy_runs g_rle_block_limit v 1 r end.
 
 Inductive result := Ok (bs : list Z) | Panic.
 
@@ -477,12 +477,12 @@ Section FloatBlock.
     | [] => []
     | v0 :: _ =>
         match m with
-        | FNone => [0] ++ le_bytes vs
-        | FSame => [64] ++ be 2 (len vs) ++ (if is_zero v0 then [] else le 8 v0)
-        | FRLE runs => [80] ++ rle_enc runs vs
-        | FSnappy => [32] ++ gsc (le_bytes vs)
-        | FGorilla => [48] ++ match gor_c vs with Some g => g | None => [] end
-        | FMLF => [96] ++ mlf_c vs
+        | FNone => [16 * g_f_none] ++ le_bytes vs
+        | FSame => [16 * g_f_same] ++ be 2 (len vs) ++ (if is_zero v0 then [] else le 8 v0)
+        | FRLE runs => [16 * g_f_rle] ++ rle_enc runs vs
+        | FSnappy => [16 * g_f_snappy] ++ gsc (le_bytes vs)
+        | FGorilla => [16 * g_f_gorilla] ++ match gor_c vs with Some g => g | None => [] end
+        | FMLF => [16 * g_f_mlf] ++ mlf_c vs
         end
     end.
 
@@ -491,18 +491,18 @@ Section FloatBlock.
     | [] => Some []
     | t :: body =>
         let tag := t / 16 in
-        if tag =? 0 then unle_all body
-        else if tag =? 3 then gor_d body
-        else if tag =? 2 then match gsd body with Some raw => unle_all raw | None => None end
-        else if tag =? 4 then
+        if tag =? g_f_none then unle_all body
+        else if tag =? g_f_gorilla then gor_d body
+        else if tag =? g_f_snappy then match gsd body with Some raw => unle_all raw | None => None end
+        else if tag =? g_f_same then
           match body with
           | [h; l] => Some (repeat 0 (Z.to_nat (h * 256 + l)))
           | h :: l :: b0 :: b1 :: b2 :: b3 :: b4 :: b5 :: b6 :: b7 :: _ =>
               Some (repeat (unle [b0; b1; b2; b3; b4; b5; b6; b7]) (Z.to_nat (h * 256 + l)))
           | _ => None
           end
-        else if tag =? 5 then Some (rle_dec body)
-        else if tag =? 6 then mlf_d body
+        else if tag =? g_f_rle then Some (rle_dec body)
+        else if tag =? g_f_mlf then mlf_d body
         else None
     end.
 
@@ -522,16 +522,16 @@ Section FloatBlock.
     match vs with
     | [] => Ok []
     | v0 :: rest =>
-        if len vs <=? 4 then Ok (float_enc_with FNone vs)
+        if len vs <=? g_f_threshold then Ok (float_enc_with FNone vs)
         else
           let dc := distinct_count v0 rest in
           if dc =? 1 then Ok (float_enc_with FSame vs)
-          else if dc <=? 8 then Ok (float_enc_with (FRLE (rle_runs_of vs)) vs)
+          else if dc <=? g_f_rle_threshold then Ok (float_enc_with (FRLE (rle_runs_of vs)) vs)
           else
             let r :=
               if prefer_snappy vs || existsb f_is_nan vs then Ok (float_enc_with FSnappy vs)
               else match gor_c vs with
-                   | Some g => Ok ([48] ++ g)
+                   | Some g => Ok ([16 * g_f_gorilla] ++ g)
                    | None => if guard_gorilla_err then Ok (float_enc_with FNone vs) else Panic
                    end in
             match r with
@@ -543,9 +543,9 @@ End FloatBlock.
 
 (* ================= string block (lib/encoding/encoding.go packStringV2 + string.go) ================= *)
 Inductive smode := SRaw | SSnappy | SZstd | SLz4.
-Definition smode_tag (m : smode) : Z := match m with SRaw => 0 | SSnappy => 1 | SZstd => 2 | SLz4 => 3 end.
+Definition smode_tag (m : smode) : Z := match m with SRaw => g_str_raw | SSnappy => g_str_snappy | SZstd => g_str_zstd | SLz4 => g_str_lz4 end.
 
-Definition str_version_v2 : Z := 4294967294.
+Definition str_version_v2 : Z := g_str_v2.
 Definition pack_strings (ss : list (list Z)) : list Z :=
   let data := concat ss in
   be 4 str_version_v2 ++ be 4 (len data) ++ data ++ be 4 (len ss) ++ flat_map (fun s => be 4 (len s)) ss.
@@ -602,7 +602,7 @@ Section StringBlock.
     | _ =>
         let src := pack_strings ss in
         match m with
-        | SRaw => [0] ++ be 4 (len src) ++ be 4 (len src) ++ src
+        | SRaw => [16 * g_str_raw] ++ be 4 (len src) ++ be 4 (len src) ++ src
         | _ => let c := cc m src in [16 * smode_tag m] ++ be 4 (len src) ++ be 4 (len c) ++ c
         end
     end.
@@ -613,16 +613,16 @@ Section StringBlock.
     | t :: body =>
         if (length bs <? 9)%nat then None else
         let tag := t / 16 in
-        if 3 <? tag then None else
+        if negb ((tag =? g_str_raw) || (tag =? g_str_snappy) || (tag =? g_str_zstd) || (tag =? g_str_lz4)) then None else
         match get_be 4 body with
         | Some (srcLen, r) =>
             match get_be 4 r with
             | Some (compLen, r2) =>
                 if len r2 <? compLen then None else
                 let payload := firstn (Z.to_nat compLen) r2 in
-                if tag =? 0 then unpack_strings payload
+                if tag =? g_str_raw then unpack_strings payload
                 else
-                  let m := if tag =? 1 then SSnappy else if tag =? 2 then SZstd else SLz4 in
+                  let m := if tag =? g_str_snappy then SSnappy else if tag =? g_str_zstd then SZstd else SLz4 in
                   match cd m payload with
                   | Some raw => if len raw =? srcLen then unpack_strings raw else None
                   | None => None
@@ -640,7 +640,7 @@ Section Frame.
   Variable wd : list Z -> option (list Z).   (* golang/snappy Decode *)
 
   Definition frame_applicable (typ : Z) (payload : list Z) : bool :=
-    ((typ =? 1) || (typ =? 2)) && bytes_ok payload && (len (wc payload) <? M32).
+    ((typ =? g_wal_line) || (typ =? g_wal_arrow)) && bytes_ok payload && (len (wc payload) <? M32).
   Definition frame_enc (typ : Z) (payload : list Z) : list Z :=
     let c := wc payload in [typ] ++ be 4 (len c) ++ c.
   (* Some (type, payload, rest of the file) or None = "incomplete / unreadable: replay of this file ends here" *)
@@ -650,7 +650,7 @@ Section Frame.
     | t :: body =>
         match get_be 4 body with
         | Some (n, r) =>
-            if (t <=? 0) || (3 <=? t) then None
+            if (t <=? g_wal_unknown) || (g_wal_end <=? t) then None
             else if len r <? n then None
             else match wd (firstn (Z.to_nat n) r) with
                  | Some p => Some (t, p, skipn (Z.to_nat n) r)
@@ -687,7 +687,7 @@ Definition frame_dec_current (wd : list Z -> option (list Z)) (stale : list Z) (
   | t :: body =>
       match get_be 4 body with
       | Some (n, r) =>
-          if (t <=? 0) || (3 <=? t) then None
+          if (t <=? g_wal_unknown) || (g_wal_end <=? t) then None
           else if (len r =? 0) && (0 <? n) then
             (if len stale <? n then None
              else match wd (firstn (Z.to_nat n) stale) with Some p => Some (t, p, []) | None => None end)
@@ -701,10 +701,10 @@ Definition frame_dec_current (wd : list Z -> option (list Z)) (stale : list Z) (
    string: its bytes - possibly none). col.Val is the concatenation of the non-null values. The block that follows the
    header is produced by the block coders modelled above and is a parameter here. *)
 Inductive ctype := CFloat | CInt | CBool | CString.
-Definition base_tag (t : ctype) : Z := match t with CInt => 1 | CFloat => 3 | CString => 4 | CBool => 5 end.
-Definition one_tag (t : ctype) : Z := match t with CFloat => 17 | CInt => 18 | CBool => 19 | CString => 20 end.
-Definition full_tag (t : ctype) : Z := match t with CFloat => 31 | CInt => 32 | CBool => 33 | CString => 34 end.
-Definition empty_tag (t : ctype) : Z := match t with CFloat => 41 | CInt => 42 | CBool => 43 | CString => 44 end.
+Definition base_tag (t : ctype) : Z := match t with CInt => g_blk_int | CFloat => g_blk_float | CString => g_blk_string | CBool => g_blk_bool end.
+Definition one_tag (t : ctype) : Z := match t with CFloat => g_one_float | CInt => g_one_int | CBool => g_one_bool | CString => g_one_string end.
+Definition full_tag (t : ctype) : Z := match t with CFloat => g_full_float | CInt => g_full_int | CBool => g_full_bool | CString => g_full_string end.
+Definition empty_tag (t : ctype) : Z := match t with CFloat => g_empty_float | CInt => g_empty_int | CBool => g_empty_bool | CString => g_empty_string end.
 
 Definition row := option (list Z).
 Definition is_some (r : row) : bool := match r with Some _ => true | None => false end.
@@ -759,11 +759,11 @@ Definition seg_dec (t : ctype) (nrows : Z) (bs : list Z) : option (list bool * l
   match bs with
   | [] => None
   | tag :: body =>
-      if (16 <? tag) && (tag <? 21) then
+      if (g_one_begin <? tag) && (tag <? g_one_end) then
         Some ([match body with [] => false | _ => true end], body)
-      else if (30 <? tag) && (tag <? 35) then
+      else if (g_full_begin <? tag) && (tag <? g_full_end) then
         match get_be 4 body with Some (n, payload) => Some (repeat true (Z.to_nat n), payload) | None => None end
-      else if (40 <? tag) && (tag <? 45) then
+      else if (g_empty_begin <? tag) && (tag <? g_empty_end) then
         match get_be 4 body with Some (n, payload) => Some (repeat false (Z.to_nat n), payload) | None => None end
       else if tag =? base_tag t then
         match get_be 4 body with
